@@ -11,7 +11,8 @@
 EXTENDS PathHeader, Json
 
 CONSTANTS MAXLEN, ALLCH, Depth, GEN,
-          ALS      \* router-alert patterns explored: subset of BOOLEAN (all alert flags set / unset)
+          ALS,     \* router-alert patterns explored: subset of BOOLEAN (all alert flags set / unset)
+          PEERS    \* PEERING flag patterns explored: subset of BOOLEAN (flag set on all / no info fields)
 
 SymXor(acc, m) == (acc \ {m}) \cup ({m} \ acc)
 
@@ -27,13 +28,13 @@ Shapes == {<<a, b, c>> : a \in 0..MAXLEN, b \in 0..MAXLEN, c \in 0..MAXLEN}
 ChOf(sl) == IF ALLCH THEN 0..(CHMOD - 1) ELSE (0..(Total(sl) + 1)) \cup {CHMOD - 1}
 
 MkHop(k, al) == [id |-> k, exp |-> 10 + k, in |-> 100 + k, eg |-> 200 + k, mac |-> k, ai |-> al, ae |-> al]
-MkInf(j, cd) == [id |-> j, cd |-> cd, ts |-> 1000 * j, sid |-> {}]
+MkInf(j, cd, pf) == [id |-> j, cd |-> cd, peer |-> pf, ts |-> 1000 * j, sid |-> {}]
 
 CellsOf(sl) ==
   {[sl |-> sl, ci |-> ci, ch |-> ch,
-    inf |-> [j \in 1..NInf(sl) |-> MkInf(j, cdv[j])],
+    inf |-> [j \in 1..NInf(sl) |-> MkInf(j, cdv[j], pf)],
     hop |-> [k \in 1..Total(sl) |-> MkHop(k, al)]] :
-     ci \in 0..3, ch \in ChOf(sl), cdv \in [1..NInf(sl) -> BOOLEAN], al \in ALS}
+     ci \in 0..3, ch \in ChOf(sl), cdv \in [1..NInf(sl) -> BOOLEAN], al \in ALS, pf \in PEERS}
 
 Ops == {"ing_int", "ing_ext", "egr"}
 ScriptList == <<[cur |-> TRUE, seg |-> TRUE, nxt |-> TRUE], [cur |-> FALSE, seg |-> TRUE, nxt |-> TRUE],
@@ -86,6 +87,7 @@ ResJ(q, op) ==
 Cell(q) ==
   [sl |-> q.sl, ci |-> q.ci, ch |-> q.ch, cd |-> [i \in 1..Len(q.inf) |-> q.inf[i].cd],
    al |-> IF Len(q.hop) > 0 THEN q.hop[1].ai ELSE FALSE,
+   pf |-> IF Len(q.inf) > 0 THEN q.inf[1].peer ELSE FALSE,
    ing_int |-> ResJ(q, "ing_int"), ing_ext |-> ResJ(q, "ing_ext"), egr |-> ResJ(q, "egr")]
 Emit == (GEN /\ n = 0) => PrintT(<<"CELL", ToJson(Cell(p))>>)
 =============================================================================
